@@ -100,6 +100,8 @@ class SymBuilder:
         nt = norm_type(ty)
         for rx, sort in self.abstract.items():
             if re.fullmatch(rx, nt):
+                if callable(sort):
+                    return sort(prefix, self)
                 v = z3.Int(prefix)
                 self.vars[prefix] = v
                 return Abs(sort, v)
